@@ -97,6 +97,46 @@ End Clean.
 Lemma target_stable_no_targets o i : co_targets o = [] -> forall c, target_ok o (clean_apply o i) c = target_ok o i c.
 Proof. intros E c. unfold target_ok. rewrite E. reflexivity. Qed.
 
+(* with the cleaned node's own copies left out of the --target test, the update never feeds back into it: every selected
+   copy is on that node (ids are unique), so the test reads the same rows before and after *)
+Lemma selected_on_node o i c : In c (copies i) -> NoDup (map k_id (copies i)) -> memN (k_id c) (clean_select o i) = true -> k_node c = co_node o.
+Proof.
+  intros Hc Hnd Hm. apply memN_in in Hm.
+  assert (S : forall x, In x (clean_select o i) -> exists c', In c' (copies i) /\ k_id c' = x /\ k_node c' = co_node o).
+  { intros x Hx. unfold clean_select in Hx.
+    assert (Hsub : exists c', In c' (filter (fun c => clean_query o i c && target_ok o i c) (copies i)) /\ k_id c' = x).
+    { destruct (co_size o) as [sz|].
+      - rewrite walk_is_prefix in Hx. apply in_map_iff in Hx as (c' & E & Hin). apply filter_In in Hin as [Hin _].
+        exists c'. split; [|exact E]. clear -Hin. revert Hin. generalize 0%Z.
+        induction (filter (fun c => clean_query o i c && target_ok o i c) (copies i)) as [|a l IH]; intros t Hin; [destruct Hin|].
+        cbn [prefix_until] in Hin. destruct Hin as [<-|Hin]; [left; reflexivity|].
+        destruct (sz <=? t + size_of i (k_file a))%Z; [destruct Hin | right; exact (IH _ Hin)].
+      - apply in_map_iff in Hx as (c' & E & Hin). exists c'. auto. }
+    destruct Hsub as (c' & Hin & E). apply filter_In in Hin as [Hin Hq]. exists c'. split; [exact Hin|]. split; [exact E|].
+    apply andb_true_iff in Hq as [Hq _]. unfold clean_query in Hq.
+    repeat (apply andb_true_iff in Hq; destruct Hq as [Hq ?]). apply N.eqb_eq. exact Hq. }
+  destruct (S _ Hm) as (c' & Hc' & Eid & Hn).
+  assert (c' = c); [|subst; exact Hn].
+  clear -Hc Hc' Eid Hnd. induction (copies i) as [|a l IH]; [destruct Hc|]. cbn [map] in Hnd. inversion Hnd as [|x xs Hnot Hnd']; subst.
+  destruct Hc as [->|Hc], Hc' as [->|Hc']; auto.
+  - exfalso. apply Hnot. apply in_map_iff. exists c'. auto.
+  - exfalso. apply Hnot. apply in_map_iff. exists c. split; [congruence | exact Hc].
+Qed.
+Lemma target_stable_always o i : NoDup (map k_id (copies i)) -> forall c, target_ok o (clean_apply o i) c = target_ok o i c.
+Proof.
+  intros Hnd c. unfold target_ok. destruct (co_targets o) as [|t ts]; [reflexivity|]. generalize (t :: ts). intros gs. induction gs as [|g gs IHg]; [reflexivity|]. cbn [forallb]. rewrite IHg. f_equal. clear IHg.
+  unfold in_group_healthy_except, clean_apply, with_copies. cbn [copies]. unfold group_of. cbn [ngroup].
+  assert (H : forall l, (forall x, In x l -> In x (copies i)) ->
+     existsb (fun c0 => N.eqb (k_file c0) (k_file c) && N.eqb (assoc (k_node c0) (ngroup i)) g && healthy c0 && negb (N.eqb (k_node c0) (co_node o))) (map (set_wants (co_goal o) (clean_select o i)) l)
+     = existsb (fun c0 => N.eqb (k_file c0) (k_file c) && N.eqb (assoc (k_node c0) (ngroup i)) g && healthy c0 && negb (N.eqb (k_node c0) (co_node o))) l).
+  { induction l as [|a l IH]; intros Hsub; [reflexivity|]. cbn [map existsb]. rewrite IH by (intros; apply Hsub; right; assumption). f_equal.
+    unfold set_wants. destruct (memN (k_id a) (clean_select o i)) eqn:Em; [|reflexivity]. cbn [k_file k_node].
+    rewrite (selected_on_node o i a (Hsub a (or_introl eq_refl)) Hnd Em). rewrite N.eqb_refl. cbn [negb]. rewrite !andb_false_r. reflexivity. }
+  apply H. auto.
+Qed.
+Lemma clean_idempotent_always o i : NoDup (map k_id (copies i)) -> clean_select o (clean_apply o i) = [].
+Proof. intros Hnd. apply clean_idempotent. apply target_stable_always, Hnd. Qed.
+
 Lemma in_group_healthy_other_group o i g f :
   g <> group_of i (co_node o) -> (forall c, In c (copies i) -> memN (k_id c) (clean_select o i) = true -> k_node c = co_node o) ->
   in_group_healthy (clean_apply o i) g f = in_group_healthy i g f.
